@@ -41,7 +41,7 @@ CLAIMED = {
          "deterministic simulation: seeded caller programs as the schedule, reference-cursor model, simulated Source delivery plans",
          "DESIGN.md section 3 C08"),
  "C07": ("fault_enumeration",
-         "On every generated valid document: truncation at every byte offset (torn tail of a crashed producer) and an enumerated catalogue of stored-medium / malformed-producer corruptions at every applicable site found through the renderer's byte map; a damaged stream is judged only when byte map / edit intent and the independent reference decoder agree it is certainly invalid; it is then traversed completely under whole and byte-at-a-time simulated delivery and must end in a non-nil, permanent error.",
+         "On every generated valid document: truncation at every byte offset (torn tail of a crashed producer) and an enumerated catalogue of stored-medium / malformed-producer corruptions at every applicable site found through the renderer's byte map; a damaged stream is judged only when byte map / edit intent and the independent reference decoder agree it is certainly invalid; it is then traversed completely under whole and byte-at-a-time simulated delivery and must end in a non-nil, permanent error. Exhaustive per document up to 1500 bytes; longer documents get 600 sampled truncation offsets and 400 sampled catalogue edits.",
          "Trusted: renderer byte maps and ref/bin, ref/text (two independent witnesses for invalidity); lenient reading of 'non-nil Err'.",
          "deterministic simulation with fault injection: exhaustive per-document truncation and corruption catalogue on the stored medium, simulated Source delivery, independent invalidity oracle",
          "DESIGN.md section 3 C07"),
